@@ -144,7 +144,7 @@ template <typename KeyT, typename ValueT>
 std::istream& deserialize(std::istream& is, std::map< KeyT, ValueT >& rhs)
 {
 
-    size_t size;
+    size_t size = 0; // operator>> leaves it untouched when the stream has already failed
     is >> size;
     rhs.clear();
     for (size_t i=0; i<size; i++)
@@ -171,7 +171,7 @@ std::ostream& serialize(std::ostream& _ostr, const std::vector< ValueT >& _rhs)
 template <typename ValueT>
 std::istream& deserialize(std::istream& _istr, std::vector< ValueT >& _rhs)
 {
-    size_t size;
+    size_t size = 0; // operator>> leaves it untouched when the stream has already failed
     _istr >> size;
     _rhs.resize(size);
     for (size_t i=0; i<size; i++)
